@@ -88,8 +88,17 @@ pub fn silence_panics() {
   panic::set_hook(Box::new(|_| {}));
 }
 
+static THREAD_CAP: std::sync::atomic::AtomicUsize = std::sync::atomic::AtomicUsize::new(16);
+
+/// Monitors whose workload hammers the library's single cache mutex scale badly beyond ~6 threads
+/// (measured: 4..16 threads give the same wall time, 16 burn a minute of futex time).
+pub fn set_thread_cap(n: usize) {
+  THREAD_CAP.store(n.max(1), std::sync::atomic::Ordering::Relaxed);
+}
+
 pub fn threads() -> usize {
-  std::env::var("VERIF_THREADS").ok().and_then(|s| s.parse().ok()).unwrap_or_else(|| std::thread::available_parallelism().map(|n| n.get()).unwrap_or(8).min(16))
+  let cap = THREAD_CAP.load(std::sync::atomic::Ordering::Relaxed);
+  std::env::var("VERIF_THREADS").ok().and_then(|s| s.parse().ok()).unwrap_or_else(|| std::thread::available_parallelism().map(|n| n.get()).unwrap_or(8).min(16)).min(cap)
 }
 
 /// Deterministic parallel map over `0..n`: chunk c is handled by worker c % T, each worker owns a
